@@ -11,6 +11,8 @@ Decided (find_last_valid_footer):
   HASH-C31c CommitFooter::hash_matches answers with one full-width equality between the BLAKE3 digest of exactly its
             slice argument (new/update/finalize or blake3::hash, no sub-slicing) and self.toc_hash (no sub-slicing); it
             has no other exit value (a conditional early false/true would reject a valid or accept an invalid footer).
+  AGREE-C30b (shared with C30) the decoder the scan relies on reads every footer field at the writer's offset and width and
+            rejects a wrong length or magic.
 Not decided: the loop-invariant argument itself (termination / highest offset) beyond these shape facts."""
 from . import lib
 from .facts import Place, op_place
@@ -121,6 +123,11 @@ def run(ctx):
         else:
             ctx.ok('SCAN-C31b', fn, 'every path back to memrchr shrinks the search window', line=mr[0].line)
     hash_rule(ctx, F)
+    # the scan's notion of a valid footer is CommitFooter::decode's: the decoder must read magic, toc_len and toc_hash at the
+    # offsets and widths the writer uses (shared with the C30 check; a narrower toc_len read accepts a footer the writer never wrote)
+    ctx.rule('AGREE-C30b', 'footer field -> (offset, width): encode == decode; magic at 0; decode rejects wrong length/magic (shared with C30)')
+    from . import c30
+    c30.footer(ctx, F)
 
 
 HASH_SIDE = {'new', 'update', 'finalize', 'hash', 'as_bytes', 'as_slice', 'as_ref', 'from', 'into', 'deref', 'borrow', 'clone'}
